@@ -69,24 +69,27 @@ def c09(F, R, tier):
 
 @prop("C11",
       technique="static: symbolic evaluation of the extracted printer tables on operator trees, re-read by a model of the extracted PEG choice order and Pratt table; Display/FromStr table agreement",
-      explanation="Decides (PRINT-PARSE) for PreExp: for every parent/child operator pair and side (and every grandchild chain whose pairs pass) the text produced by the printer functions, evaluated from their typed HIR on symbolic trees, is re-read by the extracted grammar literals (ordered choice) and the extracted Pratt table into a tree equal to the original modulo real/Boolean associativity identities; (T-PREC/T-ASSOC) precedence() is order-isomorphic to the Pratt levels and is_left_associative() agrees with the table; (S-TOKENS) for every fieldless enum with both Display and FromStr, from_str(display(v)) = v, and displayed operator/comparison tokens are selected by the grammar rule that maps back to the same variant; (OBJ-HEADER) the objective line the PreObjective printer writes for each OptimizationType is a sentence of an alternative of the grammar rule `objective` (keyword, body or no body) whose keyword parses back to the same variant. NOT decided: rendering of iterations, blocks, graphs, declarations beyond token agreement; textual idempotence of whole programs.",
+      explanation="Decides (PRINT-PARSE) for PreExp: for every parent/child operator pair and side (and every grandchild chain whose pairs pass) the text produced by the printer functions, evaluated from their typed HIR on symbolic trees, is re-read by the extracted grammar literals (ordered choice) and the extracted Pratt table into a tree equal to the original modulo real/Boolean associativity identities; (T-PREC/T-ASSOC) precedence() is order-isomorphic to the Pratt levels and is_left_associative() agrees with the table; (S-TOKENS) for every fieldless enum with both Display and FromStr, from_str(display(v)) = v, and displayed operator/comparison tokens are selected by the grammar rule that maps back to the same variant; (OBJ-HEADER) the objective line the PreObjective printer writes for each OptimizationType is a sentence of an alternative of the grammar rule `objective` (keyword, body or no body) whose keyword parses back to the same variant; (NUM-FORMAT) every float written by a function reachable from the formatter's Display impl (following resolved callees and the Display impls of formatted values) uses the decimal `{}`/`{:.N}` form, never Debug or an exponent form, which the grammar's number rule does not contain. NOT decided: rendering of iterations, blocks, graphs, declarations beyond token agreement; textual idempotence of whole programs.",
       assumptions=["pest 2.9 Pratt semantics as read from its source"])
 def c11(F, R, tier):
     import c11 as mod
     import objhdr
     mod.check(F, R, get_grammar())
     objhdr.check(F, R, get_grammar(), "C11")
+    import c12
+    c12.num_format(F, R, ["<parser::pre_model::PreModel as std::fmt::Display>::fmt"])
 
 
 @prop("C12",
       technique="static: symbolic evaluation of the extracted Exp printer on operator trees re-read by the extracted grammar/Pratt model; sign/abs pairing rule; float-rendering guard rule; generated-name templates vs grammar",
-      explanation="Decides (PRINT-PARSE) for the compiled-model printer Exp::to_string_with_precedence/Display/logic_operand_to_string over all parent/child operator pairs incl. abs/min/max blocks and all grandchild chains whose pairs pass; (SIGN-SPLIT) every printer that renders v.abs() chooses the sign with an exact test (a tolerant float_lt loses the sign of tiny negatives); (NUM-SPELL) every f64 rendered by Display for Exp / VariableType is guarded by an infinity test or spelled Infinity/MinusInfinity; (G-NAMES) every compiler-generated name template ($abs_n, $max_n_select_i, name__n, ...) instantiates to a string derivable from simple_variable/compound_variable with underscore_literal fragments; (OBJ-HEADER) the objective line written by Display for Objective and for LinearModel for each OptimizationType is a sentence of an alternative of the grammar rule `objective`. NOT decided: textual idempotence of the whole linear-model rendering; finiteness of linear-model numbers (that is C08).",
+      explanation="Decides (PRINT-PARSE) for the compiled-model printer Exp::to_string_with_precedence/Display/logic_operand_to_string over all parent/child operator pairs incl. abs/min/max blocks and all grandchild chains whose pairs pass; (SIGN-SPLIT) every printer that renders v.abs() chooses the sign with an exact test (a tolerant float_lt loses the sign of tiny negatives); (NUM-SPELL) every f64 rendered by Display for Exp / VariableType is guarded by an infinity test or spelled Infinity/MinusInfinity; (G-NAMES) every compiler-generated name template ($abs_n, $max_n_select_i, name__n, ...) instantiates to a string derivable from simple_variable/compound_variable with underscore_literal fragments; (OBJ-HEADER) the objective line written by Display for Objective and for LinearModel for each OptimizationType is a sentence of an alternative of the grammar rule `objective`; (T-DOMAIN-SPELL) Display for VariableType, evaluated on one representative of every class of bounds it can distinguish (-inf, negative, 0, positive, +inf), writes each infinite bound as the standard-library constant whose extracted value is that bound and the bare type name only for the default bounds; (NUM-FORMAT) as in C11, for the functions reachable from Display for Model and LinearModel. NOT decided: textual idempotence of the whole linear-model rendering; finiteness of linear-model numbers (that is C08).",
       assumptions=["pest 2.9 Pratt semantics as read from its source", "Rust's default f64 Display prints non-finite values as inf/-inf/NaN"])
 def c12(F, R, tier):
     import c12 as mod
     import objhdr
     mod.check(F, R, get_grammar())
     objhdr.check(F, R, get_grammar(), "C12")
+    mod.num_format(F, R, ["<parser::model_transformer::model::Model as std::fmt::Display>::fmt", "<transformers::linear_model::LinearModel as std::fmt::Display>::fmt"])
 
 
 @prop("C15",
@@ -100,13 +103,14 @@ def c15(F, R, tier):
 
 @prop("C05",
       technique="static: enum-to-enum conversion tables located by type (match tables and variant-blind closures), who-may-construct for verdict variants",
-      explanation="Decides (T-VERDICT) every match that converts a back-end error enum having an Infeasible/Unbounded/limit variant (microlp::Error, good_lp::ResolutionError, SimplexError, CanonicalTransformError) into SolverError keeps the verdict and never turns a non-verdict into one; (ENUM-MAP) no variant-blind closure converts such an enum into a single SolverError; Clarabel DualInfeasible/AlmostDualInfeasible -> Unbounded; infinite/NaN microlp objective -> Unbounded/Infeasible; (W-PRODUCER) the only producer of CanonicalTransformError::Infesible is guarded by float_ne(value, 0.0) and the only producer of SimplexError::Unbounded by the absence of a leaving row. NOT decided: that optima and verdicts are numerically right.",
+      explanation="Decides (T-VERDICT) every match that converts a back-end error enum having an Infeasible/Unbounded/limit variant (microlp::Error, good_lp::ResolutionError, SimplexError, CanonicalTransformError) into SolverError keeps the verdict and never turns a non-verdict into one; (ENUM-MAP) no variant-blind closure converts such an enum into a single SolverError; Clarabel DualInfeasible/AlmostDualInfeasible -> Unbounded; infinite/NaN microlp objective -> Unbounded/Infeasible; (W-PRODUCER) the only producer of CanonicalTransformError::Infesible is guarded by float_ne(value, 0.0) and the only producer of SimplexError::Unbounded by the absence of a leaving row; (L, W-STATE from C14) the pivot loops are bounded by the iteration counter, Bland's rule is switched on by the stall counter, and that counter is reset only when the objective moved, so that the simplex-based solvers reach a verdict instead of cycling. NOT decided: that optima and verdicts are numerically right.",
       assumptions=["variant lists of microlp::Error and good_lp::ResolutionError as in the vendored sources"])
 def c05(F, R, tier):
     import c05 as mod
     mod.check(F, R)
     import c14
     c14.canonical_start(F, R)
+    c14.loops(F, R)
 
 
 @prop("C04",
@@ -142,7 +146,7 @@ def c13(F, R, tier):
 
 @prop("C19",
       technique="static: sibling agreement of the static (can_apply_*, get_type) and runtime (apply_*_op) operator tables extracted from typed HIR and evaluated over the full finite kind x operator x kind domain; error-conversion rule; inventory of Any escapes",
-      explanation="Decides (S-OPS) for all 10 x 9 x 12 (kind, binary operator, kind) and 10 x 2 unary cells: whenever PrimitiveKind::can_apply_* accepts, the runtime arm selected in the ApplyOp impls cannot build a type-class OperatorError; (S-RESULT) for the 4 x 4 x 4 numeric cells and negation, the kind PreExp::get_type predicts is the Primitive variant the runtime arm builds (through checked_i64/checked_u64/checked_div); (ERR-KIND) no variant-blind `Err(_)` arm converts an error enum that has data-dependent variants (DivisionByZero, Overflow, ...) into a type-class TransformError; (S-ANY) every construct where the checker waves PrimitiveKind::Any through is enumerated (each is a hole in soundness by construction). NOT decided: element kinds of iterables/tuples/graphs, builtin function signatures vs their call bodies (S-FN, not built), user-supplied functions.")
+      explanation="Decides (S-OPS) for all 10 x 9 x 12 (kind, binary operator, kind) and 10 x 2 unary cells: whenever PrimitiveKind::can_apply_* accepts, the runtime arm selected in the ApplyOp impls cannot build a type-class OperatorError; (S-RESULT) for the 4 x 4 x 4 numeric cells and negation, the kind PreExp::get_type predicts is the Primitive variant the runtime arm builds (through checked_i64/checked_u64/checked_div); (ERR-KIND) no variant-blind `Err(_)` arm converts an error enum that has data-dependent variants (DivisionByZero, Overflow, ...) into a type-class TransformError; (S-ANY) every construct where the checker waves PrimitiveKind::Any through is enumerated (each is a hole in soundness by construction); (D-SCOPE-USE) in every type-checking function that opens one frame per iteration and pops them in a loop, every use of the checker context with a part of the checked item other than the iteration list (sides, name indexes) lies between the pushes and the pops, as it does when the item is transformed -- a check outside the frames sees the iteration variables unbound and accepts what the transformer rejects. NOT decided: element kinds of iterables/tuples/graphs, builtin function signatures vs their call bodies (S-FN, not built), user-supplied functions.")
 def c19(F, R, tier):
     import c19 as mod
     mod.check(F, R)
